@@ -1,6 +1,7 @@
 (* Props/C15.v — symmetrisation and the symmetry test. Only statements, short proofs by the lemmas, Print Assumptions. *)
 From Coq Require Import List Arith Bool ZArith Permutation Ring.
-From PV Require Import Base.Index Base.Perm Base.Sum Model.Repr Model.C15Sym Proofs.C15Proofs.
+From PV Require Import Base.Index Base.Perm Base.Sum Model.Repr Model.C15Sym Model.C15Impl Proofs.C15Proofs Proofs.C15Orbit
+  Proofs.C15ImplProofs.
 Import ListNotations.
 
 Section C15.
@@ -39,9 +40,70 @@ Theorem C15_kruskal_sym : forall w (A : list (list V)) N i i', Permutation i i' 
   den_k v0 v1 vadd vmul (mkK w (repeat A N)) i = den_k v0 v1 vadd vmul (mkK w (repeat A N)) i'.
 Proof. intros; eapply den_identical_factors_symmetric; eauto. Qed.
 
-(* NOT proved (kept visible): the average itself is symmetric, hence symmetrising is idempotent *)
+(* ---- wave 2 ---- *)
+(* the statement kept visible in wave 1.  As written (no bound on the group positions) it is too strong: for g = [0;5],
+   i = [7], vals = [0;7] the out-of-range position 5 is read as 0 but cannot be written.  The theorems below carry the
+   missing premise (group positions are modes of the N-way subscripts). *)
 Definition C15_result_symmetric_stmt : Prop :=
   forall (X : idx -> V) g, NoDup g -> sym_in V (sym_group v0 v1 vadd vmul vinv X g) g.
+
+(* rearranging a list rearranges the list of its rearrangements (the core of the orbit argument), and every
+   rearrangement occurs among the summands *)
+Theorem C15_perms_respects_rearrangement : forall l l', Permutation l l' -> Permutation (perms l) (perms l').
+Proof. exact perms_Permutation. Qed.
+Theorem C15_sym_spec_terms_complete : forall l y, Permutation l y -> In y (perms l).
+Proof. exact perms_complete. Qed.
+
+(* RESULT SYMMETRIC, one group: the average over a group (distinct modes < N) is invariant under every rearrangement of
+   the subscripts inside the group — no hypothesis on the ring beyond commutativity *)
+Theorem C15_result_symmetric : forall N (X : idx -> V) g, okg N g ->
+  forall i vals, length i = N -> Permutation (pick 0 g i) vals ->
+  sym_group v0 v1 vadd vmul vinv X g (put g vals i) = sym_group v0 v1 vadd vmul vinv X g i.
+Proof. intros N X g H i vals Hi P. eapply sym_group_symmetric; eauto. Qed.
+
+(* RESULT SYMMETRIC, several pairwise disjoint groups: spec_sym X G is symmetric in EVERY group of G *)
+Theorem C15_result_symmetric_groups : forall N G, groups_ok N G -> forall (X : idx -> V) g, In g G ->
+  forall i vals, length i = N -> Permutation (pick 0 g i) vals ->
+  spec_sym v0 v1 vadd vmul vinv X G (put g vals i) = spec_sym v0 v1 vadd vmul vinv X G i.
+Proof. intros N G HG X g Hg i vals Hi P. eapply spec_sym_symmetric; eauto. Qed.
+
+(* IDEMPOTENCE: symmetrising again changes nothing (characteristic 0) *)
+Theorem C15_idempotent : forall N G (X : idx -> V), groups_ok N G -> forall i, length i = N ->
+  spec_sym v0 v1 vadd vmul vinv (spec_sym v0 v1 vadd vmul vinv X G) G i = spec_sym v0 v1 vadd vmul vinv X G i.
+Proof. intros; eapply spec_sym_idempotent; eauto. Qed.
+
+(* the result of symmetrising passes the (spec) symmetry test *)
+(* GLUE: the boolean test (adjacent exchanges, in-bounds subscripts only) answers true exactly when every group is
+   cubical and the tensor is invariant under EVERY rearrangement inside every group at every in-bounds subscript *)
+Theorem C15_issym_exact : forall s (X : idx -> V) G, (forall g, In g G -> okg (length s) g) ->
+  (spec_issym veqb s X G = true <->
+   forall g, In g G -> group_cubical s g = true /\
+     forall i vals, inb s i = true -> Permutation (pick 0 g i) vals -> X (put g vals i) = X i).
+Proof. intros s X G H. eapply spec_issym_all_rearrangements; eauto. Qed.
+
+(* pyttb's NEW issymmetric (class-exemplar comparison) and OLD issymmetric (X.permute(p) == X for every rearrangement of
+   every group) both compute the spec test — hence agree with each other *)
+Theorem C15_issym_new : forall s (X : idx -> V) G, (forall g, In g G -> okg (length s) g) ->
+  impl_issym_new veqb s X G = spec_issym veqb s X G.
+Proof. intros; eapply impl_issym_new_correct; eauto. Qed.
+Theorem C15_issym_old : forall s (X : idx -> V) G, (forall g, In g G -> okg (length s) g) ->
+  impl_issym_old veqb s X G = spec_issym veqb s X G.
+Proof. intros; eapply impl_issym_old_correct; eauto. Qed.
+
+(* pyttb's NEW symmetrize (class average with the "already symmetric" short-cut), any list of cubical groups:
+   equals the spec average at every in-bounds subscript (orbit counting) *)
+Theorem C15_sym_new : forall s G, (forall g, In g G -> okg (length s) g /\ group_cubical s g = true) ->
+  forall (X : idx -> V) i, inb s i = true ->
+  impl_sym_new v0 v1 vadd vmul vinv veqb s X G i = spec_sym v0 v1 vadd vmul vinv X G i.
+Proof. intros; eapply impl_sym_new_correct; eauto. Qed.
+
+(* OLD symmetrize (explicit average over all combinations of mode rearrangements + max-fix): NOT proved; the
+   transliteration impl_sym_old is compared with spec_sym exactly on every generated input *)
+Definition C15_sym_old_stmt : Prop :=
+  forall (vmax : V -> V -> V), (forall a, vmax a a = a) ->
+  forall s G, groups_ok (length s) G -> (forall g, In g G -> group_cubical s g = true) ->
+  forall (X : idx -> V) i, inb s i = true ->
+  impl_sym_old v0 v1 vadd vmul vinv vmax (length s) X G i = spec_sym v0 v1 vadd vmul vinv X G i.
 End C15.
 
 Print Assumptions C15_sym_spec_terms.
@@ -49,9 +111,30 @@ Print Assumptions C15_adjacent_transpositions_suffice.
 Print Assumptions C15_fixes_symmetric.
 Print Assumptions C15_issym_spec.
 Print Assumptions C15_kruskal_sym.
+Print Assumptions C15_perms_respects_rearrangement.
+Print Assumptions C15_sym_spec_terms_complete.
+Print Assumptions C15_result_symmetric.
+Print Assumptions C15_result_symmetric_groups.
+Print Assumptions C15_idempotent.
+Print Assumptions C15_issym_exact.
+Print Assumptions C15_issym_new.
+Print Assumptions C15_issym_old.
+Print Assumptions C15_sym_new.
 
 (* non-vacuity: a non-symmetric 2x2 matrix, one group [0;1] over Z-valued functions is not available without division;
    the list machinery on a concrete instance *)
 Example C15_example_perms : perms [1; 2; 3] = [[1; 2; 3]; [2; 1; 3]; [2; 3; 1]; [1; 3; 2]; [3; 1; 2]; [3; 2; 1]]
   /\ put [0; 2] [7; 9] [1; 2; 3] = [7; 2; 9] /\ swap_adj 1 [4; 5; 6] = [4; 6; 5].
 Proof. repeat split; reflexivity. Qed.
+
+(* non-vacuity of the wave-2 theorems: a NON-symmetric 2x3x3 tensor over Qc, group [1;2] (a proper subset of the modes) *)
+From Coq Require Import QArith Qcanon.
+From PV Require Import Np.Array Model.Harness Model.C15Inst.
+Local Open Scope nat_scope.
+Definition exT : dense Qc := mkDense [2; 3; 3] (map (fun z => Q2Qc (z # 1)) [1; 2; 3; 4; 5; 6; 7; 8; 9; 10; 11; 12; 13; 14; 15; 16; 17; 19]%Z).
+Example C15_example_new_old_spec :
+  q_issym exT [[1; 2]] = false /\ q_impls_agree exT [[1; 2]] = true /\ q_issym_impls_agree exT [[1; 2]] = true /\
+  Qc_eq_bool (q_sym exT [[1; 2]] [1; 0; 2]) (Q2Qc (10 # 1)) = true /\ Qc_eq_bool (q_sym exT [[1; 2]] [1; 2; 0]) (Q2Qc (10 # 1)) = true /\
+  Qc_eq_bool (qden exT [1; 0; 2]) (Q2Qc (14 # 1)) = true /\ Qc_eq_bool (qden exT [1; 2; 0]) (Q2Qc (6 # 1)) = true /\
+  q_issym (tabulate [2; 3; 3] (q_sym exT [[1; 2]])) [[1; 2]] = true.
+Proof. vm_compute. repeat split; reflexivity. Qed.
